@@ -110,7 +110,9 @@ Hypothesis P1c : d_mem (up_dir f) (marker_name W) = false.
 Hypothesis P1d : forall g, d_mem (f_local f) g = true -> collect_ready c g = true ->
                            contains (u_dir c ++ g) W = false.
 (* the names of other weeks' reports do not contain W *)
-Hypothesis P2 : forall e, uploader_week e <> W -> contains (u_dir c ++ ready_name (uploader_week e)) W = false.
+Hypothesis P2 : forall n id ct cf, d_find (f_local f) n = Some (id, ct) -> parse ct = Some cf ->
+  uploader_week (cf_end cf) <> W ->
+  contains (u_dir c ++ ready_name (uploader_week (cf_end cf))) W = false.
 (* all of W's files ended before the start, one has a counter *)
 Hypothesis Hall : forall n cf, wfile n cf -> before_start (cf_end cf) (u_start c) = true.
 Hypothesis Hne : exists n cf, wfile n cf /\ cf_counts cf <> [].
@@ -300,13 +302,16 @@ Proof.
 Qed.
 
 Lemma clean_r_finish t :
-  names_inv t -> in_rep (t_pc t) = true -> t_week t <> W -> clean_r t ->
+  names_inv t -> data_inv (f_local f) t -> in_rep (t_pc t) = true -> t_week t <> W -> clean_r t ->
   forall g, In g (if t_upok t then t_ready t ++ [ready_name (t_week t)] else t_ready t) ->
             contains (u_dir c ++ g) W = false.
 Proof.
-  intros N Hp Hw Hc g Hg. destruct (t_upok t); auto.
+  intros N D Hp Hw Hc g Hg. destruct (t_upok t); auto.
   apply in_app_iff in Hg. destruct Hg as [Hg | [<- | []]]; auto.
-  destruct (ni_week _ N Hp) as [e He]. rewrite He in *. apply P2. exact Hw.
+  pose proof (ni_nonempty _ N Hp) as Hne'. pose proof (di_files _ _ D Hp) as DF.
+  destruct (t_files t) as [|[n cf] l]; [contradiction|]. inversion DF; subst.
+  destruct H1 as ((id & ct & Hf & Hpa) & _ & Hwk). simpl in *. rewrite <- Hwk in *.
+  eapply P2; eauto.
 Qed.
 
 Ltac phA := left; unfold phaseA; simpl; refine (conj _ (conj _ (conj _ (conj _ _)))); auto.
@@ -331,7 +336,7 @@ Proof.
     destruct (t_pc t) eqn:Epc; try contradiction.
     6-12: (destruct Hpc as (Hcl & Hcu & Hg & Hwk);
            assert (Hin : in_rep (t_pc t) = true) by (rewrite Epc; reflexivity);
-           pose proof (clean_r_finish t N Hin Hwk Hcl) as Hfin;
+           pose proof (clean_r_finish t N D Hin Hwk Hcl) as Hfin;
            repeat match type of Hd with
                   | context [match ?x with _ => _ end] => destruct x eqn:?
                   end; injection Hd as <- <-; left;
